@@ -82,6 +82,15 @@ def directed() -> list[dict[str, Any]]:
     ], timeline=[[0, 'start', 'op1'], [1, 'create', 'a', {'spec': {'x': 1}}], [5, 'stop_wait', 'op1'], [6, 'start', 'op2'],
                  [7, 'edit', 'a', {'spec': {'x': 2}}], [30, 'stop_wait', 'op2'], [31, 'start', 'op3'], [31.5, 'edit', 'a', {'status': {'f': 1}}],
                  [32.5, 'edit', 'a', {'spec': {'x': 3}}]]))
+    # D5: deletion handlers (one with a result) next to daemons that take several re-checks to exit: the deletion is ONE cycle
+    out.append(dict(base, name='D5', storage='status', handlers=[
+        {'kind': 'create', 'id': 'c1'},
+        {'kind': 'delete', 'id': 'd1', 'script': [['ok', {'r': 1}], ['ok', {'r': 1}], ['ok', {'r': 1}]]},
+        {'kind': 'delete', 'id': 'd2', 'script': [['temp', 1], ['ok'], ['ok']]},
+        {'kind': 'daemon', 'id': 'dm', 'persona': {'type': 'linger', 'linger': 4.0}, 'opts': {}},
+        {'kind': 'timer', 'id': 'tm', 'opts': {'interval': 5.0}},
+    ], settings=dict(base['settings'], background__cancellation_polling=1.0),
+        timeline=[[0, 'start', 'op1'], [1, 'create', 'a', {'spec': {'x': 1}}], [6, 'delete', 'a']]))
     return out
 
 
@@ -112,6 +121,10 @@ def random_desc(rng: random.Random, i: int) -> dict[str, Any]:
             if rng.random() < 0.2:
                 h['opts'] = {'errors': rng.choice(['permanent', 'ignored', 'temporary']), 'backoff': rng.choice([0.5, 2])}
             handlers.append(h)
+    if rng.random() < 0.2:
+        # a daemon that needs several re-checks to exit: a deletion (or a mismatch) spans more than one processing pass
+        persona = rng.choice([{'type': 'linger', 'linger': rng.choice([0.5, 3.0])}, {'type': 'selfexit', 'after': rng.choice([2.0, 8.0])}, {'type': 'obedient'}])
+        handlers.append({'kind': 'daemon', 'id': 'dm', 'persona': persona, 'opts': rng.choice([{}, {'cancellation_backoff': 1.0}])})
     storage, prefix, resources = rng.choice([('default', None, 'kex'), ('default', None, 'kex_s'), ('annotations', 'my-op.example.com', 'kex'),
                                              ('status', None, 'kex'), ('status', None, 'kex_s'), ('smart', 'op2.example.org', 'kex_s')])
     nobj = rng.randint(1, 2)
@@ -149,7 +162,7 @@ def random_desc(rng: random.Random, i: int) -> dict[str, Any]:
         'seed': rng.randrange(1 << 30), 'handlers': handlers, 'storage': storage, 'prefix': prefix, 'resources': resources,
         'lifecycle': rng.choice([None, None, 'one_by_one', 'all_at_once', 'shuffled', 'randomized', 'asap']),
         'settings': {'queueing__idle_timeout': rng.choice([0.5, 1.0, 5.0]), 'persistence__consistency_timeout': rng.choice([1.0, 2.0, 5.0]),
-                     'execution__default_backoff': 1.5},
+                     'execution__default_backoff': 1.5, 'background__cancellation_polling': rng.choice([1.0, 2.0])},   # (60 s by default: beyond 'quiet')
         'kube': {'del_keep_finalizer': rng.random() < 0.5, 'del_bump_patch_rv': rng.random() < 0.5},
         'timeline': tl, 'quiet': 20.0, 'horizon': 600.0,
         'lag': {'values': rng.choice([[0.0], [0.0, 0.05], [0.0, 0.3, 0.6]])},
